@@ -38,7 +38,9 @@ import (
 	"encoding/json"
 	"fmt"
 	"os"
+	"path/filepath"
 	"runtime"
+	"sort"
 	"strconv"
 	"strings"
 	"sync"
@@ -92,7 +94,7 @@ func tierConfig(f lib.Flags, res *lib.Result) config {
 	case f.Tier == "thorough":
 		c = config{zones: all, y0: 2005, y1: 2040, nextDST: 440000, nextFixed: 40000, civil: 50000, every: 20000, noTrans: 8}
 	default:
-		c = config{zones: quickZones, y0: 2015, y1: 2026, nextDST: 30000, nextFixed: 5000, civil: 5000, every: 2000, noTrans: 40}
+		c = config{zones: quickZones, y0: 2015, y1: 2026, nextDST: 150000, nextFixed: 20000, civil: 15000, every: 5000, noTrans: 40}
 	}
 	ok := c.zones[:0:0]
 	for _, z := range c.zones {
@@ -500,25 +502,19 @@ type replayCase struct {
 	DelayNs string   `json:"delay_ns"`
 }
 
-func replay(f lib.Flags, res *lib.Result) error {
-	b, err := os.ReadFile(f.Replay)
-	if err != nil {
-		return err
-	}
-	var rf replayFile
-	if err := json.Unmarshal(b, &rf); err != nil {
-		return err
-	}
+// caseGroup turns a stored case (replay file or corpus file) into a one-item group.
+func caseGroup(raw json.RawMessage) (*group, *item, error) {
+	var err error
 	var rc replayCase
-	if err := json.Unmarshal(rf.Case, &rc); err != nil {
-		return fmt.Errorf("replay case: %w", err)
+	if err := json.Unmarshal(raw, &rc); err != nil {
+		return nil, nil, fmt.Errorf("replay case: %w", err)
 	}
 	if rc.Zone == "" {
 		rc.Zone = "UTC"
 	}
 	loc, err := resolveLoc(rc.Zone)
 	if err != nil {
-		return err
+		return nil, nil, err
 	}
 	g := &group{kind: gDST, zone: rc.Zone, loc: loc}
 	it := &item{kind: rc.Kind}
@@ -526,22 +522,22 @@ func replay(f lib.Flags, res *lib.Result) error {
 	switch rc.Kind {
 	case "next":
 		if len(rc.Sched) != 6 {
-			return fmt.Errorf("replay: sched needs six sets")
+			return nil, nil, fmt.Errorf("replay: sched needs six sets")
 		}
 		var v [6]uint64
 		for i, s := range rc.Sched {
 			if v[i], err = strconv.ParseUint(s, 10, 64); err != nil {
-				return err
+				return nil, nil, err
 			}
 		}
 		ns, err := strconv.ParseInt(rc.TNs, 10, 64)
 		if err != nil {
-			return err
+			return nil, nil, err
 		}
 		tl := loc
 		if rc.TLoc != "" && !rc.Local {
 			if tl, err = resolveLoc(rc.TLoc); err != nil {
-				return err
+				return nil, nil, err
 			}
 		} else {
 			rc.TLoc = rc.Zone
@@ -551,24 +547,24 @@ func replay(f lib.Flags, res *lib.Result) error {
 		anchor = it.t
 	case "civil":
 		if it.unix, err = strconv.ParseInt(rc.TUnix, 10, 64); err != nil {
-			return err
+			return nil, nil, err
 		}
 		anchor = time.Unix(it.unix, 0)
 	case "date":
 		if len(rc.Date) != 6 {
-			return fmt.Errorf("replay: date needs six fields")
+			return nil, nil, fmt.Errorf("replay: date needs six fields")
 		}
 		copy(it.date[:], rc.Date)
 		anchor = time.Date(rc.Date[0], 6, 1, 0, 0, 0, 0, time.UTC)
 	case "every", "everyd":
 		g.kind = gEvery
 		if it.delay, err = strconv.ParseInt(rc.DelayNs, 10, 64); err != nil {
-			return err
+			return nil, nil, err
 		}
 		if rc.Kind == "every" {
 			ns, err := strconv.ParseInt(rc.TNs, 10, 64)
 			if err != nil {
-				return err
+				return nil, nil, err
 			}
 			tl := time.UTC
 			if rc.TLoc != "" {
@@ -579,7 +575,7 @@ func replay(f lib.Flags, res *lib.Result) error {
 			it.t, it.tLoc = time.Unix(0, ns).In(tl), rc.TLoc
 		}
 	default:
-		return fmt.Errorf("replay: unknown case kind %q", rc.Kind)
+		return nil, nil, fmt.Errorf("replay: unknown case kind %q", rc.Kind)
 	}
 	if g.kind != gEvery {
 		ws, we := window(anchor.Add(-48*time.Hour), anchor.Add(48*time.Hour))
@@ -587,6 +583,49 @@ func replay(f lib.Flags, res *lib.Result) error {
 	}
 	g.items = []*item{it}
 	g.pregen = true
+	return g, it, nil
+}
+
+// corpusGroups loads $VERIF_DIR/corpus/C04Next/*.json (past findings and disagreements, one
+// `case` object per file); they are run before the generated cases on every run.
+func corpusGroups(res *lib.Result) []*group {
+	dir := os.Getenv("VERIF_DIR")
+	if dir == "" {
+		dir = "/verif"
+	}
+	files, _ := filepath.Glob(filepath.Join(dir, "corpus", "C04Next", "*.json"))
+	sort.Strings(files)
+	var out []*group
+	for _, fn := range files {
+		b, err := os.ReadFile(fn)
+		if err != nil {
+			res.Note("corpus: " + err.Error())
+			continue
+		}
+		g, _, err := caseGroup(b)
+		if err != nil {
+			res.Note("corpus: " + fn + ": " + err.Error())
+			continue
+		}
+		res.Hit("corpus-case")
+		out = append(out, g)
+	}
+	return out
+}
+
+func replay(f lib.Flags, res *lib.Result) error {
+	b, err := os.ReadFile(f.Replay)
+	if err != nil {
+		return err
+	}
+	var rf replayFile
+	if err := json.Unmarshal(b, &rf); err != nil {
+		return err
+	}
+	g, it, err := caseGroup(rf.Case)
+	if err != nil {
+		return err
+	}
 	pool, closeAll := startPool(f.Drv, 1, res)
 	defer closeAll()
 	g.run(pool)
@@ -633,7 +672,7 @@ func main() {
 	}
 	start := time.Now()
 	c := tierConfig(f, res)
-	groups := enumerate(c, lib.NewRand(f.Seed), res)
+	groups := append(corpusGroups(res), enumerate(c, lib.NewRand(f.Seed), res)...)
 	workers := runtime.NumCPU()
 	pool, closeAll := startPool(f.Drv, max(1, min(8, workers/2)), res)
 	runAll(groups, pool, workers)
